@@ -258,7 +258,7 @@ pub fn run(ctx: &Ctx) -> (Stats, Report) {
     st.section("year_month_values", &mut mark);
 
     // DT values
-    let mut vals: Vec<i128> = pools::dt_pool(seed, if ctx.thorough { 40_000_000 } else { 3_000_000 });
+    let mut vals: Vec<i128> = pools::dt_pool(seed, if ctx.thorough { 150_000_000 } else { 3_000_000 });
     for unit in [US_PER_SEC, US_PER_MIN, US_PER_HOUR, US_PER_DAY] {
         for k in [1i128, 2, 3, 23, 24, 25, 59, 60, 61, 99, 100, 1000, 99_999_999] {
             for d in [-1i128, 0, 1] {
@@ -411,7 +411,7 @@ pub fn run(ctx: &Ctx) -> (Stats, Report) {
     let _ = ad::in_range;
 
     let rep = Report {
-        rule: format!("Year-month intervals: {} (plus +-3000 around zero and both limits); day-time intervals: every second within +-2 days (+0/+-1 us), every power of ten +-1, unit multiples +-1 us, range limits, {} seeded values on four magnitude scales; constructor validity grids with u32 extremes; out-of-range raw counts. Oracle: sign + div/rem decomposition of |value| in i128; constructors inverse and accepting exactly the well-formed tuples inside the symmetric range with the matching error kind; negation an involution onto the range; signed accessors = truncating division; ordering numeric. Non-trivial = negative, or within one unit of zero or of a limit, or a rejected tuple.", if ctx.thorough { "all 4,272,000,001 values" } else { "every 199th value" }, if ctx.thorough { "40,000,000" } else { "3,000,000" }),
+        rule: format!("Year-month intervals: {} (plus +-3000 around zero and both limits); day-time intervals: every second within +-2 days (+0/+-1 us), every power of ten +-1, unit multiples +-1 us, range limits, {} seeded values on four magnitude scales; constructor validity grids with u32 extremes; out-of-range raw counts. Oracle: sign + div/rem decomposition of |value| in i128; constructors inverse and accepting exactly the well-formed tuples inside the symmetric range with the matching error kind; negation an involution onto the range; signed accessors = truncating division; ordering numeric. Non-trivial = negative, or within one unit of zero or of a limit, or a rejected tuple.", if ctx.thorough { "all 4,272,000,001 values" } else { "every 199th value" }, if ctx.thorough { "150,000,000" } else { "3,000,000" }),
         assumptions: vec!["second() is compared with the correctly rounded double of (signed microseconds within the minute)/10^6".into()],
         exhaustive: false,
         extra: Default::default(),
